@@ -1,6 +1,6 @@
 SPECIFICATION Spec
 CONSTANTS
-  Names = {"DYN0", "DYN1", "DYN2"}
+  Names = {"DYN0", "dyn0", "DYN1"}
   BuiltinToks = {"PLUS", "NOT", "INCREMENT", "LPAREN"}
   InfixLevels = {3, 7}
   MaxCalls = 5
